@@ -289,7 +289,7 @@ def get_ast_term(t):
 
             if op_data is not None:
                 if op_data.arity == operator.UNARY:
-                    return op_data.priority, UNARY
+                    return op_data.outer, UNARY
                 else:
                     return op_data.priority, BINARY
             elif binder_data is not None or logic.is_if(t):
@@ -416,7 +416,10 @@ def get_ast_term(t):
 
                 arg_ast = helper(t.arg, bd_vars)
                 arg_prior, arg_type = get_priority_pair(t.arg)
-                if arg_prior < op_data.priority or arg_type == FUN_APPL:
+                if arg_type == UNARY:
+                    if arg_prior < op_data.outer:
+                        arg_ast = Bracket(arg_ast)
+                elif arg_prior < op_data.priority or arg_type == FUN_APPL:
                     arg_ast = Bracket(arg_ast)
 
                 return UnaryOp(op_ast, arg_ast, t.get_type())
